@@ -4,6 +4,7 @@
 -/
 import PicoSVG.Proofs.PathForm
 import PicoSVG.Proofs.PathSim
+import PicoSVG.Proofs.PathSimAbs
 import PicoSVG.Spec.Shapes
 
 set_option linter.unusedSectionVars false
@@ -43,6 +44,25 @@ variable {α : Type} [Field α] [LinearOrder α] [IsStrictOrderedRing α]
 theorem explicitLines_preserves_curve (cmds out : List (Cmd α)) (segs : List (Spec.Seg α))
     (h : explicitLines cmds = .ok out) (hi : Spec.interp cmds = some segs) : Spec.interp out = some segs :=
   PathSim.explicitLines_interp cmds out segs h hi
+
+/-- C09 (absolute): relative → absolute rewriting preserves the list of drawn segments of every command sequence the
+    specification gives a meaning to — whenever the end-point snapping of `_rewrite_path` does not fire (`hns`).  The
+    snapping (an end point within 1e-9 of the subpath start, but not on it, is moved onto it) is the one intended deviation:
+    it moves one end point by at most the tolerance and is judged per run. -/
+theorem absolute_preserves_curve (tol : α) (hns : ∀ p q : Pt α, (p == q) = false → ptAlmostEq tol p q = false)
+    (cmds out : List (Cmd α)) (segs : List (Spec.Seg α))
+    (h : absolute tol cmds = .ok out) (hi : Spec.interp cmds = some segs) : Spec.interp out = some segs :=
+  PathSim.absolute_interp tol hns cmds out segs h hi
+
+/-- … in particular with snapping tolerance 0, unconditionally -/
+theorem absolute_preserves_curve_exact (cmds out : List (Cmd α)) (segs : List (Spec.Seg α))
+    (h : absolute (0 : α) cmds = .ok out) (hi : Spec.interp cmds = some segs) : Spec.interp out = some segs :=
+  PathSim.absolute_interp 0 PathSim.no_snap_zero cmds out segs h hi
+
+/-- any other rewrite built on the walk inherits the result as soon as its callback is sound command by command -/
+theorem sound_callback_preserves_curve (cb : Callback α) (hcb : PathSim.CbSound cb) (cmds out : List (Cmd α))
+    (segs : List (Spec.Seg α)) (h : walk cb cmds = .ok out) (hi : Spec.interp cmds = some segs) :
+    Spec.interp out = some segs := PathSim.walk_sim cb hcb cmds out segs h hi
 
 /-- the walker's notion of "current position" is the interpreter's, for every command letter (this is what makes the
     other rewrites' callbacks see the right point) -/
